@@ -205,7 +205,7 @@ func c14Step(c *core.Ctx, n int, uid string, prev, cur *journal.Trip, upd *gtfs.
 		e := L[len(L)-m+i]
 		u := U[i]
 		c.Cmp(1)
-		if u.StopID == nil || e.StopID != *u.StopID {
+		if e.StopID != c14StopIDOf(u.StopID) {
 			viol("tail-stop-mismatch", "tail entry %d is stop %q, the update has %v; list %s", i, e.StopID, strOrNil(u.StopID), stopTimesString(L))
 			return
 		}
@@ -254,8 +254,8 @@ func c14Step(c *core.Ctx, n int, uid string, prev, cur *journal.Trip, upd *gtfs.
 		}
 	}
 	// (3) alignment: if the update's first stop is in the previous list, nothing before it is dropped
-	if m > 0 && U[0].StopID != nil {
-		first := *U[0].StopID
+	if m > 0 {
+		first := c14StopIDOf(U[0].StopID)
 		occurs := false
 		okAlign := false
 		for i := range Lp {
@@ -274,6 +274,14 @@ func c14Step(c *core.Ctx, n int, uid string, prev, cur *journal.Trip, upd *gtfs.
 			c.Skip("first-stop-not-in-previous-list-any-prefix-accepted")
 		}
 	}
+}
+
+// c14StopIDOf: a stop time update without stop_id is recorded under the empty stop id.
+func c14StopIDOf(p *string) string {
+	if p == nil {
+		return ""
+	}
+	return *p
 }
 
 // c14RunHistory parses the history, builds the journal for every prefix and checks every step.
